@@ -19,6 +19,7 @@ struct EngineFeatures {
   bool numericKeys = false;   // numeric-looking spellings (SQLite affinity)
   bool hostileValues = true;
   bool clientVersions = false; // histories change the database's client schema version
+  bool lockout = false;        // a second engine tries to use the database during a build; foreign schema versions; attach without recreate
 };
 
 struct EngineGen {
